@@ -21,7 +21,7 @@ class Prop:
     id = "C17"
     level = "exploration"
     engine = "VT"
-    quick_runs = 70000
+    quick_runs = 120000
     thorough_runs = 2500000
     rule = ("one generated cold/hot/sync timeline with elements before, at and after every boundary through take/skip_with_time, "
             "take/skip_until_with_time (relative and absolute), take/skip_last_with_time, timeout (relative/absolute, failing or with a "
